@@ -1115,8 +1115,14 @@ func checkTransport(c *core.Ctx, r *core.Rule, exp *core.Expansion, fx *core.Fix
 // checkTimeFormatPrecedence: a schema with x-ogen-time-format has both a TimeFormat and a Format; every template
 // that dispatches on them must ask for TimeFormat first, on the encoding side, the decoding side and for defaults
 // alike (sibling agreement), or one of them uses the standard layout for a value the other wrote with the custom one.
-func checkTimeFormatPrecedence(c *core.Ctx) {
-	r := c.NewRule("R01.7", "S1", "every template dispatch that tests both TimeFormat and Format tests TimeFormat first", 3)
+func checkTimeFormatPrecedence(c *core.Ctx) { checkCodecPrecedence(c, "R01.7") }
+
+// checkCodecPrecedence: in a template dispatch over the JSON view of a type the more specific representation is
+// asked for first: TimeFormat (custom layout) before Format (named codec) before Fn (the raw jx method of the Go
+// primitive). Fn is set for every primitive, so a chain that asks for it first never reaches the codec the schema
+// declared (a string-typed number is written as a bare number, a formatted time with the default layout).
+func checkCodecPrecedence(c *core.Ctx, ruleID string) {
+	r := c.NewRule(ruleID, "S1", "every template dispatch over the JSON view tests TimeFormat before Format before Fn", 3)
 	ts, err := tmpl.Load(c.Repo)
 	if err != nil {
 		r.Undecided("load:templates", "-", err.Error())
@@ -1176,7 +1182,7 @@ func checkTimeFormatPrecedence(c *core.Ctx) {
 				}
 				cur = next
 			}
-			iT, iF := -1, -1
+			iT, iF, iFn := -1, -1, -1
 			for i, p := range conds {
 				if iT < 0 && mentions(p, "TimeFormat") {
 					iT = i
@@ -1184,9 +1190,21 @@ func checkTimeFormatPrecedence(c *core.Ctx) {
 				if iF < 0 && mentions(p, "Format") && !mentions(p, "TimeFormat") {
 					iF = i
 				}
+				if iFn < 0 && mentions(p, "Fn") {
+					iFn = i
+				}
+			}
+			if iFn >= 0 && (iF >= 0 || iT >= 0) {
+				key := fmt.Sprintf("fn-order:%s", name)
+				pos := fmt.Sprintf("gen/_template/%s:%d", ts.FileOf[name], ts.Line(name, top.Pos))
+				if (iF < 0 || iF < iFn) && (iT < 0 || iT < iFn) {
+					r.Pass(fmt.Sprintf("%s at %s: Fn tested after the format codecs", key, pos))
+				} else {
+					r.Fail(key, pos, fmt.Sprintf("template %q asks for the raw jx method (Fn) before Format / TimeFormat: every primitive has one, so a declared format (string-typed number, unix time, custom layout) is written in the primitive's default representation while the sibling decoder expects the declared one", name))
+				}
 			}
 			if iT < 0 || iF < 0 {
-				return true
+				return iFn < 0
 			}
 			key := fmt.Sprintf("timeformat-order:%s", name)
 			pos := fmt.Sprintf("gen/_template/%s:%d", ts.FileOf[name], ts.Line(name, top.Pos))
